@@ -54,11 +54,27 @@ func (ck *checker) familyCLI(maxN int) {
 			g := fromEnum(eg)
 			vectors := allKinds(n, cliKinds)
 			if n == 3 && r.Quick() {
-				vectors = [][]Kind{{KLocal, KLocal, KLocal}, {KNamed, KNamed, KNamed}, {KLocal, KNamed, KBoth}}
+				vectors = [][]Kind{{KNamed, KNamed, KNamed}, {KLocal, KNamed, KBoth}}
 			}
 			for _, ks := range vectors {
 				for _, v2 := range []bool{false, true} {
 					specs = append(specs, newSpec(g, ks, v2))
+				}
+			}
+			// a module that provides a well-known type and is imported through it alone (family W through the
+			// CLI): n <= 2 in the quick tier, n <= 3 in the thorough tier
+			if !(n == 3 && r.Quick()) {
+				for w := 0; w < n; w++ {
+					if inDegree(g, w) == 0 {
+						continue
+					}
+					for _, ks := range vectors {
+						for _, v2 := range []bool{false, true} {
+							s := newSpec(g, ks, v2)
+							s.WKTProv = w
+							specs = append(specs, s)
+						}
+					}
 				}
 			}
 			// plants: n <= 2 in the quick tier, n <= 3 in the thorough tier
@@ -109,6 +125,11 @@ func (ck *checker) familyCLI(maxN int) {
 		}
 		defer os.RemoveAll(dir)
 		for ti, t := range s.targets() {
+			if r.Quick() && s.G.N >= 3 && (t.Kind == "file" || t.Kind == "path" || t.Kind == "pathdir") && t.Node != s.locals()[0] {
+				// quick, n = 3: the workspace and every module directory, the proto-file / --path targets of the
+				// lowest-numbered local module only (all of them at n <= 2 and in the thorough tier)
+				continue
+			}
 			r.Eval(1)
 			if hasEdge(s.G) || s.DupFrom >= 0 || s.MissingIn >= 0 {
 				r.Distinct("cli/" + s.key() + "/" + t.String())
@@ -212,11 +233,8 @@ func (ck *checker) checkCLI(ctx context.Context, cc *cliCounters, b *Built, dir 
 		res := runCLI("dep", "graph", input)
 		switch {
 		case plant:
-			culprit := s.MissingIn
-			if s.DupFrom >= 0 {
-				culprit = s.DupFrom
-			}
-			if in[culprit] {
+			pl, _ := s.plant()
+			if pl.inClosure(in) {
 				if res.ExitCode == 0 {
 					ck.cliViolate("cli/dep-graph/ambiguity/no-error", "`buf dep graph` succeeded although an ambiguous import is in the closure of the targets", b, t, res, Case{Observed: res.Stdout})
 				} else if s.MissingIn >= 0 && !anyCycle {
@@ -265,11 +283,8 @@ func (ck *checker) checkCLI(ctx context.Context, cc *cliCounters, b *Built, dir 
 	lsArgs := append([]string{"ls-files", "--include-imports", "--format", "import", input}, flags...)
 	buildArgs := append([]string{"build", input, "-o", "-#format=binpb"}, flags...)
 	if plant {
-		needed := bPath(max(s.MissingIn, 0))
-		if s.DupFrom >= 0 {
-			needed = aPath(s.DupFrom)
-		}
-		if !s.needsFile(t, needed) {
+		pl, _ := s.plant()
+		if !s.needsFile(t, pl.neededFile) {
 			return
 		}
 		ls, bd := runCLI(lsArgs...), runCLI(buildArgs...)
